@@ -10,7 +10,7 @@ delimited by the boundaries it was printed with, error = score*sigma%/100 (the s
 
 The text->token half (pyparsing, float()) and the HDF5 half cannot be executed symbolically: layouts
 are therefore enumerated by forked selectors (bounded-exhaustive), numbers are concrete tags.  The
-Apollo3/HDF5 clause of the property is NOT covered (see MANIFEST notes).
+Apollo3 half: synthetic HDF5 files of the documented standard layout (solver-chosen numbers of outputs,\ngroups, zones and per-output isotope lists), Reader(...).to_browser() and every single Picker pick are\ncompared with the stored arrays.
 """
 import os
 import shutil
@@ -20,7 +20,9 @@ from engine.runner import run_sym, replay_sym
 
 PID = 'C10'
 LEVEL = 'other'
-TARGETS = ['valjean.eponine.tripoli4.parse:Parser.parse_from_index', 'valjean.eponine.tripoli4.scan:Scanner._get_collres',
+TARGETS = ['valjean.eponine.apollo3.hdf5_reader:Reader.read_file', 'valjean.eponine.apollo3.hdf5_reader:Reader.to_browser',
+           'valjean.eponine.apollo3.hdf5_picker:Picker.pick_standard_value', 'valjean.eponine.apollo3.hdf5_picker:Picker.isotopes',
+           'valjean.eponine.tripoli4.parse:Parser.parse_from_index', 'valjean.eponine.tripoli4.scan:Scanner._get_collres',
            'valjean.eponine.tripoli4.common:KinematicDictBuilder.fill_arrays_and_bins',
            'valjean.eponine.tripoli4.common:KinematicDictBuilder.add_last_bins',
            'valjean.eponine.tripoli4.common:DictBuilder.convert_bins_to_increasing_arrays',
@@ -36,7 +38,7 @@ ASSUMPTIONS = ['listings are synthesised from the layout of the shipped example 
                'blocks); only spectrum responses in E, E x t, E x mu (and E x t x mu) are generated',
                'the layout (group counts, printing orders, position of the special value) is solver-chosen; the printed numbers are concrete tags',
                'relative sigma is printed in percent; error = score * sigma / 100 (literal reading of the statement, also for negative scores)']
-OUTSIDE = ['Apollo3 HDF5 reader/picker (h5py is a C library: no symbolic or synthetic-layout coverage here)',
+OUTSIDE = ['Apollo3: only the documented standard layout with <= 2 outputs, <= 2 zones, <= 3 isotopes, FLUX/KEFF/CONCEN/Absorption (h5py is a C library: layouts are enumerated, nothing is symbolic)',
            'meshes, Green bands, keff, IFP, perturbation, sensitivity layouts', 'several editions with different results', "'not converged' results"]
 EXPLANATION = ('bounded-exhaustive symbolic execution (symrun + z3: solver-chosen listing layouts) of the real Tripoli-4 reader on synthetic '
                'listings built around known ground truth; every parsed number compared with the number written')
@@ -189,6 +191,115 @@ def make_harness(nresp, max_e, seconds):
     return harness
 
 
+# ----------------------------------------------------------------------------- Apollo3 (HDF5) half
+ISOTOPES = ['U235', 'U238', 'Xe135']
+
+
+def write_hdf(path, nout, ng, zones, iso_lists):
+    """HDF5 file following the documented Apollo3 'standard' layout around distinct tags -> truth dict"""
+    import h5py
+    truth = {}
+    tag = [0]
+
+    def nxt(n):
+        a = np.arange(tag[0] + 1, tag[0] + n + 1, dtype=float)
+        tag[0] += n
+        return a
+    with h5py.File(path, 'w') as f:
+        info = f.create_group('info')
+        info['NOUT'] = np.array([nout], dtype='int32')
+        geo = f.create_group('geometry')
+        geo['NGEO'] = np.array([1], dtype='int32')
+        g1 = geo.create_group('geom_1')
+        g1['NZONE'] = np.array([len(zones)], dtype='int32')
+        g1['VOLUME'] = np.ones(len(zones), dtype='float32')
+        g1['ZONENAME'] = np.array(list(zones), dtype='S')
+        for o in range(nout):
+            oname = f'output_{o}'
+            oi = info.create_group(oname)
+            oi['GEOMID'] = np.array([b'geom_1'])
+            oi['NG'] = np.array([ng], dtype='int32')
+            og = f.create_group(oname)
+            tot = og.create_group('totaloutput')
+            tot['KEFF'] = nxt(1)
+            truth[(oname, 'totaloutput', None, 'KEFF')] = tot['KEFF'][0]
+            tot['FLUX'] = nxt(ng)
+            truth[(oname, 'totaloutput', None, 'FLUX')] = tot['FLUX'][()]
+            for z in zones:
+                zg = og.create_group(z)
+                il = iso_lists[o]
+                zg['NISOT'] = np.array([len(il)], dtype='int32')
+                if il:
+                    zg['ISOTOPE'] = np.array(list(il), dtype='S')
+                    zg['CONCEN'] = nxt(len(il))
+                    for k, iso in enumerate(il):
+                        truth[(oname, z, iso, 'concentration')] = zg['CONCEN'][k]
+                zg['FLUX'] = nxt(ng)
+                truth[(oname, z, None, 'FLUX')] = zg['FLUX'][()]
+                mg = zg.create_group('macro')
+                mg['Absorption'] = nxt(ng)
+                truth[(oname, z, 'macro', 'Absorption')] = mg['Absorption'][()]
+                for iso in il:
+                    ig = zg.create_group(iso)
+                    ig['Absorption'] = nxt(ng)
+                    truth[(oname, z, iso, 'Absorption')] = ig['Absorption'][()]
+    return truth
+
+
+def apollo_harness(ex):
+    import itertools
+    from valjean.eponine.apollo3.hdf5_reader import Reader
+    from valjean.eponine.apollo3.hdf5_picker import Picker
+    nout = 1 + ex.choice(2, 'nout')
+    ng = 1 + ex.choice(2, 'ng')
+    zones = ['z1', 'z2'][:1 + ex.choice(2, 'nzones')]
+    lists = [()] + [p for r in (1, 2, 3) for p in itertools.permutations(ISOTOPES, r) if r < 3 or p[0] == 'U238']
+    iso_lists = [lists[ex.choice(len(lists), f'isotopes{o}')] for o in range(nout)]
+    ex.note('layout', [nout, ng, zones, iso_lists])
+    tmp = tempfile.mkdtemp(prefix='verif_c10h_')
+    path = os.path.join(tmp, 'a.hdf')
+    try:
+        truth = write_hdf(path, nout, ng, zones, iso_lists)
+        br = Reader(path).to_browser()
+        ex.check(len(br.content) == len(truth), 'reader:one-item-per-stored-result', detail=f'{len(br.content)} != {len(truth)}')
+        good = True
+        for (o, z, iso, name), val in truth.items():
+            kw = dict(output=o, zone=z, result_name=name.lower())
+            its = [it for it in br.content if all(it.get(k) == v for k, v in kw.items()) and it.get('isotope') == iso]
+            if len(its) != 1 or not np.array_equal(np.asarray(its[0]['results'].value, dtype=float), np.asarray(val, dtype=float)):
+                good = False
+        ex.check(good, 'reader:every-stored-array-under-its-output-zone-isotope-labels')
+        pk = Picker(path)
+        try:
+            pgood, agree = True, True
+            for (o, z, iso, name), val in truth.items():
+                try:
+                    ds = pk.pick_standard_value(output=o, zone=z, result_name=name, isotope=iso)
+                    v = np.asarray(ds.value, dtype=float)
+                except Exception as e:      # noqa
+                    pgood = False
+                    ex.note('pick-error', f'{(o, z, iso, name)}: {type(e).__name__}: {e}')
+                    continue
+                if not np.array_equal(v, np.asarray(val, dtype=float)):
+                    pgood = False
+            ex.check(pgood, 'picker:every-single-pick-returns-the-stored-array')
+            for o in [f'output_{i}' for i in range(nout)]:
+                for z in zones:
+                    want = list(iso_lists[int(o[-1])]) + ['macro']
+                    if list(pk.isotopes(output=o, zone=z)) != want:
+                        agree = False
+            ex.check(agree, 'picker:isotope-lists-per-output-and-zone')
+        finally:
+            pk.close()
+    finally:
+        shutil.rmtree(tmp, ignore_errors=True)
+
+
+def _job_apollo(timeout_ms, seed=0):
+    return run_sym('x', apollo_harness, timeout_ms=timeout_ms, seed=seed, max_paths=200000,
+                   require_checks=['picker:every-single-pick-returns-the-stored-array'])
+
+
 def _job(nresp, max_e, seconds, timeout_ms, seed=0):
     return run_sym('x', make_harness(nresp, max_e, tuple(seconds)), timeout_ms=timeout_ms, seed=seed, max_paths=200000)
 
@@ -197,12 +308,16 @@ def jobs(tier):
     t = 20000
     if tier == 'quick':
         return [(f'{s}-r1', _job, dict(nresp=1, max_e=3, seconds=[s], timeout_ms=t)) for s in ('none', 'time', 'mu')] + \
-               [('mixed-r2', _job, dict(nresp=2, max_e=1, seconds=['none', 'time'], timeout_ms=t))]
+               [('mixed-r2', _job, dict(nresp=2, max_e=1, seconds=['none', 'time'], timeout_ms=t)),
+                ('apollo3', _job_apollo, dict(timeout_ms=t))]
     return [(f'{s}-r1', _job, dict(nresp=1, max_e=4, seconds=[s], timeout_ms=t)) for s in ('none', 'time', 'mu')] + \
-           [('mixed-r2', _job, dict(nresp=2, max_e=2, seconds=['none', 'time', 'mu'], timeout_ms=t))]
+           [('mixed-r2', _job, dict(nresp=2, max_e=2, seconds=['none', 'time', 'mu'], timeout_ms=t)),
+            ('apollo3', _job_apollo, dict(timeout_ms=t))]
 
 
 def replay(rp):
+    if rp['job'] == 'apollo3':
+        return replay_sym(apollo_harness, rp['inputs'])
     for j in jobs('thorough') + jobs('quick'):
         if j[0] == rp['job']:
             p = j[2]
